@@ -151,6 +151,7 @@ class HistPlugin:
         def hist(tau):
             te = symx.lift(tau)
             return SArr([Sym(H[i](te)) for i in range(ny)])
+        self.hist_float = lambda tau: np.array([symx.hist_component(i, float(tau)) for i in range(ny)])
         return dict(hist=hist)
 
     def after_run(self, ctx):
@@ -262,6 +263,7 @@ class ChainPlugin:
             self.aux_info[j] = (s, rates)
             z = chain_sym(s, rates)
             subs.append((symx.lift(ctx.y_sym[j]), z.e))
+            ctx.y_names[j] = str(z.e)
         out = np.empty(ctx.out.shape, dtype=object)
         for i, cell in enumerate(ctx.out):
             out[i] = Sym(z3.substitute(symx.lift(cell), *subs)) if subs else cell
@@ -282,3 +284,35 @@ class ChainPlugin:
 
 def chain_sym(src, rates):
     return symx.real(f"Z|{'/'.join(src)}|{','.join(str(r) for r in rates)}")
+
+
+class Composite:
+    """several plugins at once (e.g. ring buffers for delayed edges + history for past() terms under a fixed step)"""
+
+    def __init__(self, *plugins):
+        self.plugins = plugins
+
+    def arg_overrides(self, c, binding, t_sym):
+        out = dict(args={})
+        for p in self.plugins:
+            ov = p.arg_overrides(c, binding, t_sym)
+            out['args'].update(ov.get('args') or {})
+            if ov.get('hist') is not None:
+                out['hist'] = ov['hist']
+            if hasattr(p, 'hist_float'):
+                self.hist_float = p.hist_float
+        return out
+
+    def after_run(self, ctx):
+        delayed_fns, past_fn = [], None
+        for p in self.plugins:
+            ctx.delayed, ctx.past = None, None
+            p.after_run(ctx)
+            if ctx.abort:
+                return
+            if ctx.delayed:
+                delayed_fns.append(ctx.delayed)
+            if ctx.past:
+                past_fn = ctx.past
+        ctx.delayed = delayed_fns[0] if delayed_fns else None
+        ctx.past = past_fn
